@@ -302,6 +302,8 @@ func oracleTags(oracle string) []string {
 		return []string{"C08", "C09"}
 	case "liveness":
 		return []string{"C11", "C09", "C02", "C01"}
+	case "groundplane":
+		return []string{"C20", "C09", "C07"}
 	}
 	return nil
 }
